@@ -69,6 +69,7 @@ type k2Result struct {
 	InFragmentU, PathsOK      int // plans passing PlanCheck.checkProgU / PathCheck.pathsOK (same denominator)
 	CustomsFirst, InFragmentS int // … CustomCheck.customsFirst / PlanCheckS.checkProgS
 	HasShare                  int // … with at least one skipCopySameType sharing position
+	Descends                  int // … whose same-value call structure has a ranking (Safety.callsDescend)
 	// failing calls on which implementation and model chose different entries of a map (Go's iteration order is unspecified):
 	// resolved by re-running the model on the other iteration orders
 	MapOrderResolved, MapOrderTried int
@@ -341,6 +342,9 @@ func runK2(e *env, name string, batches []*k2Batch) (*k2Result, error) {
 							if rnode.L[6].S == "true" {
 								res.HasShare++
 							}
+						}
+						if len(rnode.L) >= 8 && rnode.L[7].S == "true" {
+							res.Descends++
 						}
 						mu.Unlock()
 						continue
